@@ -69,6 +69,10 @@ Fixpoint dedup (l : list clus) : list clus :=
 Definition memb (x : nat) (l : list nat) : bool := existsb (Nat.eqb x) l.
 
 (* ================================================================== Part 1: geometry, growth *)
+(* BoxOld: round(sqrt(r2/metric_ii))+1, makeclusters before the fix b4d0a84 (refuted below);
+   BoxNew: ceil(sqrt(r2*invmetric_ii))+1, the current code;  BoxGiven w: explicit half-widths. *)
+Inductive boxmode := BoxOld | BoxNew | BoxGiven (w : vec).
+
 Record geom := mkGeom {
   g_dim : nat;                          (* 2 or 3 *)
   g_G : Z * Z * Z * Z * Z * Z;          (* sg * metric: g11 g22 g33 g12 g13 g23 *)
@@ -78,7 +82,7 @@ Record geom := mkGeom {
   g_chem : list nat;
   g_excl : list nat;                    (* excluded chemistries *)
   g_r2n : Z; g_r2d : Z;                 (* cutoff^2 *)
-  g_over : bool; g_wover : vec }.       (* g_over = true: search box of half-widths g_wover instead of the code's formula *)
+  g_box : boxmode }.                    (* which neighbour search box *)
 
 Definition quad (G : Z * Z * Z * Z * Z * Z) (v : vec) : Z :=
   let '(g11, g22, g33, g12, g13, g23) := G in let '(x, y, z) := v in
@@ -103,11 +107,24 @@ Definition nbrb (s0 s1 : nat) (R : vec) : bool :=
 (* int(np.round(np.sqrt(r2 / metric[i,i]))) + 1  with r2/metric = a/b *)
 Definition rsqrt (a b : Z) : Z := (Z.sqrt (4 * a * b) + b) / (2 * b).
 Definition nmax_of (gii : Z) : Z := rsqrt (g_r2n ge * g_sg ge) (g_r2d ge * gii) + 1.
+(* int(np.ceil(np.sqrt(r2 * invmetric[i,i]))) + 1;  invmetric_ii = sg * adj_ii / det G *)
+Definition csqrt (a b : Z) : Z := Z.sqrt_up ((a + b - 1) / b).
+Definition adjdiag : Z * Z * Z * Z :=
+  let '(g11, g22, g33, g12, g13, g23) := g_G ge in
+  if Nat.leb 3 (g_dim ge)
+  then (g22 * g33 - g23 * g23, g11 * g33 - g13 * g13, g11 * g22 - g12 * g12,
+        g11 * (g22 * g33 - g23 * g23) - g12 * (g12 * g33 - g23 * g13) + g13 * (g12 * g23 - g22 * g13))
+  else (g22, g11, 0, g11 * g22 - g12 * g12).
+Definition nmax_new (aii det : Z) : Z := csqrt (g_r2n ge * g_sg ge * aii) (g_r2d ge * det) + 1.
 Definition nmaxv : vec :=
   let '(g11, g22, g33, _, _, _) := g_G ge in
-  let '(w0, w1, w2) := g_wover ge in
-  if g_over ge then (w0, w1, if Nat.leb 3 (g_dim ge) then w2 else 0)
-  else (nmax_of g11, nmax_of g22, if Nat.leb 3 (g_dim ge) then nmax_of g33 else 0).
+  let three := Nat.leb 3 (g_dim ge) in
+  match g_box ge with
+  | BoxOld => (nmax_of g11, nmax_of g22, if three then nmax_of g33 else 0)
+  | BoxNew => let '(a1, a2, a3, dt) := adjdiag in
+              (nmax_new a1 dt, nmax_new a2 dt, if three then nmax_new a3 dt else 0)
+  | BoxGiven (w0, w1, w2) => (w0, w1, if three then w2 else 0)
+  end.
 
 Definition in_boxw (w : vec) (R : vec) : bool :=
   let '(n0, n1, n2) := w in let '(x, y, z) := R in
